@@ -57,6 +57,12 @@ def gen_case(rng, i):
     spec = F.gen_frame(rng, nrows=rng.choice([1, 2, 3, 5, 21, 30]), pool=F.RECOGNISED)
     for j, c in enumerate(spec['cols']):
         c['name'] = NAMES[j]
+    if i % 3 == 1:
+        # csv output: pandas' own to_csv leaves a bare carriage return unquoted, so a file holding
+        # such a text field cannot be read back by any CSV reader - not tdda's doing
+        for c in spec['cols']:
+            if F.FAMILY[c['kind']] == 'string':
+                c['values'] = [v if v is None else v.replace('\r', ' ') for v in c['values']]
     clean = i % 6 == 5
     if clean:
         cset = None       # discovered from the frame itself -> nothing fails
@@ -238,7 +244,13 @@ def run_case(ctx, case):
         if 'n_failures' not in fdf.columns:
             rec.violation('output_file_no_n_failures', {'case': case, 'mech': {'fmt': case['fmt']}, 'facts': {'columns': list(fdf.columns)}})
             return
-        fnf = [int(x) for x in fdf['n_failures']]
+        try:
+            fnf = [int(x) for x in fdf['n_failures']]
+        except (TypeError, ValueError):
+            rec.violation('output_file_n_failures_cells', {'case': case, 'mech': {'fmt': case['fmt']},
+                                                           'facts': {'cells': [repr(x) for x in fdf['n_failures']][:10], 'columns': list(fdf.columns),
+                                                                     'head': fdf.head(3).to_dict('records')}})
+            return
         want_nf = [exp_nf[i] for i in want_rows]
         if 'Index' in fdf.columns and len(spec['cols']) and 'Index' not in cols:
             frows = [int(x) for x in fdf['Index']]
